@@ -48,8 +48,7 @@ impl Value {
     #[allow(non_snake_case)]
     fn ObjString(g: Gc<ObjString>) -> (r: Value) ensures str_of(r) == gc_str(g) { unimplemented!() }
 }
-#[verifier::external_body]
-fn token_clone(t: &Token) -> (r: Token) ensures r == *t { unimplemented!() }
+impl Clone for Token { #[verifier::external_body] fn clone(&self) -> (r: Self) ensures r == *self { unimplemented!() } }
 #[verifier::external_body]
 fn string_as_str(s: &String) -> (r: &str) ensures r@ == s@ { unimplemented!() }
 
@@ -203,7 +202,6 @@ impl Parser {
     //@end
 
     //@fn file=yarel/src/compiler.rs path=Parser::parse_variable ret=r props=C06,C15,C04
-    //@  substx "let name = $1.clone();" => "let name = token_clone(&$1);"
     //@  ensures old(self).grows(final(self)), final(self).code() == old(self).code(), final(self).fns == old(self).fns, final(self).named == old(self).named
     //@  ensures @a_declaration_at_depth_zero_declares_no_local old(self).comp.scope_depth == 0 ==> final(self).comp == old(self).comp
     //@  ensures @a_global_is_named_by_the_declared_identifier old(self).comp.scope_depth == 0 && !final(self).had_error ==> final(self).names_constant(r as int, final(self).previous.source@)
@@ -270,8 +268,6 @@ impl Parser {
     // E.name   E.name = V   E.name OP= V   E.name(args)
     //@fn file=yarel/src/compiler.rs path=Parser::dot props=C07,C04
     //@  rewrite R21
-    //@  subst "s.previous.clone()" => "token_clone(&s.previous)"
-    //@  subst "s.current.clone()" => "token_clone(&s.current)"
     //@  after_stmt "let#1" let ghost nm = s.previous.source@; let ghost n0 = s.code().len();
     //@  assert @a_property_access_names_the_identifier_after_the_dot at body.end !s.had_error ==> s.names_constant(name as int, nm)
     //@  assert @a_plain_property_expression_reads_the_property at body.end !can_assign ==> s.code().len() >= n0 + 3 && ((s.code().len() == n0 + 3 && s.ends_with_op(OpCode::GetProperty, name as int)) || (s.code()[s.code().len() - 4] == opcode_byte(OpCode::Invoke) && u16_of(s.code()[s.code().len() - 3], s.code()[s.code().len() - 2]) == name))
@@ -304,7 +300,6 @@ impl Parser {
 
     // NAME in an expression
     //@fn file=yarel/src/compiler.rs path=Parser::variable props=C06,C04
-    //@  substx "s.named_variable($1.clone()," => "s.named_variable(token_clone(&$1),"
     //@  ensures @an_identifier_denotes_the_variable_of_that_name final(s).named == old(s).named.push((old(s).previous.source@, can_assign))
     //@  ensures old(s).grows(final(s)), same_shape(old(s).locals(), final(s).locals())
     //@end
